@@ -17,6 +17,27 @@ class PrivateAbort(BaseException):
     """Injected BaseException."""
 
 
+class PrivateValueError(ValueError):
+    pass
+
+
+class PrivateRuntimeError(RuntimeError):
+    pass
+
+
+class PrivateOSError(OSError):
+    pass
+
+
+class PrivateArithmeticError(ZeroDivisionError):
+    pass
+
+
+# exceptions a data object may raise; none of them is a documented lookup signal
+# (AttributeError / LookupError / TypeError become undefined in some contexts, StopIteration from a callable too)
+FAULT_CLASSES = (PrivateFault, PrivateAbort, PrivateValueError, PrivateRuntimeError, PrivateOSError, PrivateArithmeticError)
+
+
 class Events:
     """Counts data events of one render and raises at the k-th if asked to."""
 
